@@ -13,7 +13,11 @@ import (
 	"time"
 )
 
+var SlowLog func(script string, d time.Duration, verdict string)
+
 type Solver struct {
+	bin  string
+	args []string
 	cmd     *exec.Cmd
 	in      io.WriteCloser
 	out     *bufio.Reader
@@ -25,6 +29,8 @@ type Solver struct {
 	marks  []int
 	Errors []string
 	name   string
+	live   bool // the process context mirrors the script (incremental mode)
+	noIncremental bool
 }
 
 func NewSolver(bin string, args []string, timeoutMs int) (*Solver, error) {
@@ -41,12 +47,7 @@ func NewSolver(bin string, args []string, timeoutMs int) (*Solver, error) {
 	if err := cmd.Start(); err != nil {
 		return nil, err
 	}
-	s := &Solver{cmd: cmd, in: in, out: bufio.NewReaderSize(outp, 1<<16), timeout: timeoutMs, name: bin}
-	s.raw("(set-option :print-success true)")
-	s.raw("(set-option :produce-models true)")
-	if strings.Contains(bin, "z3") {
-		s.raw(fmt.Sprintf("(set-option :timeout %d)", timeoutMs))
-	}
+	s := &Solver{cmd: cmd, in: in, out: bufio.NewReaderSize(outp, 1<<16), timeout: timeoutMs, name: bin, bin: bin, args: args}
 	return s, nil
 }
 
@@ -112,6 +113,8 @@ func (s *Solver) readSexp() string {
 	}
 }
 
+// raw sends one command and reads one response (used for options and
+// get-value, which always answer).
 func (s *Solver) raw(cmd string) string {
 	if _, err := io.WriteString(s.in, cmd+"\n"); err != nil {
 		panic(engineErr("solver write: " + err.Error()))
@@ -123,65 +126,139 @@ func (s *Solver) raw(cmd string) string {
 	return r
 }
 
-func (s *Solver) cmdLogged(c string) string {
-	s.script = append(s.script, c)
-	return s.raw(c)
+// The context is kept as a script; every check-sat re-sends it after a
+// (reset).  z3's incremental core (push/pop) answers `unknown` after 10 s on
+// string constraints that the same binary decides in 70 ms from a fresh
+// context, so incrementality is given up on purpose; the process stays alive
+// (no start-up cost per query).
+
+func (s *Solver) send(cmd string) {
+	if _, err := io.WriteString(s.in, cmd+"\n"); err != nil {
+		panic(engineErr("solver write: " + err.Error()))
+	}
 }
+
+// Fresh starts a new path: empty context, incremental mode.
+func (s *Solver) Fresh() {
+	s.script = s.script[:0]
+	s.marks = s.marks[:0]
+	s.send("(reset)\n(set-option :produce-models true)")
+	if strings.Contains(s.bin, "z3") {
+		s.send(fmt.Sprintf("(set-option :timeout %d)", s.timeout))
+	}
+	s.live = !s.noIncremental
+}
+
+// degrade gives up the incremental context for the rest of the path (string
+// theory: z3's incremental core is far weaker than a fresh context).
+func (s *Solver) degrade() { s.live = false }
 
 func (s *Solver) Push() {
 	s.marks = append(s.marks, len(s.script))
-	s.raw("(push 1)")
+	if s.live {
+		s.send("(push 1)")
+	}
 }
 
 func (s *Solver) Pop() {
 	n := s.marks[len(s.marks)-1]
 	s.marks = s.marks[:len(s.marks)-1]
 	s.script = s.script[:n]
-	s.raw("(pop 1)")
+	if s.live {
+		s.send("(pop 1)")
+	}
 }
 
 func (s *Solver) Depth() int { return len(s.marks) }
 
 func (s *Solver) Declare(name string, srt smtSort) {
-	s.cmdLogged(fmt.Sprintf("(declare-const %s %s)", name, srt))
+	c := fmt.Sprintf("(declare-const %s %s)", name, srt)
+	s.script = append(s.script, c)
+	if srt == sStr || srt == sReal {
+		s.degrade()
+	}
+	if s.live {
+		s.send(c)
+	}
 }
 
 func (s *Solver) DeclareFun(name string, sig string) {
-	s.cmdLogged(fmt.Sprintf("(declare-fun %s %s)", name, sig))
+	c := fmt.Sprintf("(declare-fun %s %s)", name, sig)
+	s.script = append(s.script, c)
+	if s.live {
+		s.send(c)
+	}
 }
 
 func (s *Solver) Assert(t string) {
-	s.cmdLogged("(assert " + t + ")")
+	c := "(assert " + t + ")"
+	s.script = append(s.script, c)
+	if s.live && strings.Contains(t, "(str.") {
+		s.degrade()
+	}
+	if s.live {
+		s.send(c)
+	}
 }
 
 // Check returns "sat", "unsat" or "unknown" (timeouts and errors are unknown).
 func (s *Solver) Check() string {
 	s.Calls++
-	nerr := len(s.Errors)
 	t0 := time.Now()
-	r := s.raw("(check-sat)")
-	s.Time += time.Since(t0)
-	if len(s.Errors) > nerr {
-		return "unknown"
+	if s.live {
+		s.send("(check-sat)\n(echo \"<<done>>\")")
+	} else {
+		var b strings.Builder
+		b.WriteString("(reset)\n(set-option :produce-models true)\n")
+		if strings.Contains(s.bin, "z3") {
+			fmt.Fprintf(&b, "(set-option :timeout %d)\n", s.timeout)
+		}
+		for _, l := range s.script {
+			b.WriteString(l)
+			b.WriteByte('\n')
+		}
+		b.WriteString("(check-sat)\n(echo \"<<done>>\")")
+		s.send(b.String())
 	}
-	switch r {
-	case "sat", "unsat":
-		return r
+	verdict := "unknown"
+	sawErr := false
+	for {
+		r := s.readSexp()
+		if r == "<<done>>" || r == "\"<<done>>\"" {
+			break
+		}
+		switch {
+		case strings.HasPrefix(r, "(error"):
+			sawErr = true
+			if len(s.Errors) < 20 {
+				s.Errors = append(s.Errors, r)
+			}
+		case r == "sat" || r == "unsat" || r == "unknown":
+			verdict = r
+		}
 	}
-	return "unknown"
+	d := time.Since(t0)
+	s.Time += d
+	if sawErr {
+		verdict = "unknown"
+	}
+	if verdict == "unknown" && s.live && !sawErr {
+		// retry once from a fresh context before giving up
+		s.live = false
+		s.Calls--
+		return s.Check()
+	}
+	if SlowLog != nil && d > 2*time.Second {
+		SlowLog(s.Script(""), d, verdict)
+	}
+	return verdict
 }
 
 // CheckWith decides pc ∧ extra without changing the context.
 func (s *Solver) CheckWith(extra string) string {
 	s.Push()
-	nerr := len(s.Errors)
 	s.Assert(extra)
-	var r string
-	if len(s.Errors) > nerr {
-		r = "unknown"
-	} else {
-		r = s.Check()
-	}
+	r := s.Check()
 	s.Pop()
 	return r
 }
@@ -346,4 +423,20 @@ func parseSmtString(v string) (string, bool) {
 		b.WriteByte(c)
 	}
 	return b.String(), true
+}
+
+// Restart replaces a dead solver process by a fresh one (empty context).
+func (s *Solver) Restart() error {
+	if s.cmd != nil && s.cmd.Process != nil {
+		s.cmd.Process.Kill()
+		s.cmd.Wait()
+	}
+	n, err := NewSolver(s.bin, s.args, s.timeout)
+	if err != nil {
+		return err
+	}
+	calls, tm, errs := s.Calls, s.Time, s.Errors
+	*s = *n
+	s.Calls, s.Time, s.Errors = calls, tm, errs
+	return nil
 }
